@@ -730,3 +730,162 @@ Proof.
     + constructor.
     + intros y [].
 Qed.
+
+Lemma announced_groups_cons e b : announced_groups (e :: b) = announced_groups [e] ++ announced_groups b.
+Proof. unfold announced_groups. cbn [flat_map]. rewrite app_nil_r. reflexivity. Qed.
+
+Lemma J_events E st0 b : forall nst nst' p c ag,
+  J E st0 nst p c ag -> nsteps nst b = Some nst' ->
+  let '(p', c') := fold_left (handle_event E) b (p, c) in
+  J E st0 nst' p' c' (ag ++ announced_groups b).
+Proof.
+  induction b as [|e b IH]; intros nst nst' p c ag HJ Hs; cbn [nsteps fold_left] in *.
+  - inversion Hs; subst. rewrite app_nil_r. exact HJ.
+  - destruct (nstep nst e) as [nst1|] eqn:S1; [|discriminate].
+    pose proof (J_event _ _ _ _ _ _ _ _ HJ S1) as HJ1.
+    destruct (handle_event E (p, c) e) as [p1 c1].
+    specialize (IH _ _ _ _ _ HJ1 Hs).
+    destruct (fold_left (handle_event E) b (p1, c1)) as [p' c'].
+    rewrite announced_groups_cons, app_assoc. exact IH.
+Qed.
+
+Definition K (E : env) (nst : nstate) (p : pub) (M : mstate) : Prop :=
+  m_pend M = table_pend E (nxf nst) (ids p) /\
+  (forall i, In i (m_used M) -> i < next_id p) /\
+  T nst p.
+
+Lemma gkey_div2_even k : N.even k = true -> gkey (N.div2 k) = k.
+Proof. unfold gkey. destruct k as [|[q|q|]]; cbn; try discriminate; reflexivity. Qed.
+
+Lemma memN_true_iff k l : memN k l = true <-> In k l.
+Proof.
+  split; [apply memN_in|]. intro H. unfold memN. apply existsb_exists. exists k. split; [exact H|apply N.eqb_refl].
+Qed.
+
+Lemma nesting_from_nodes E nst p streams (pending : list pend) ag :
+  T nst p ->
+  (forall a, In a pending -> p_stream a = false -> In (p_label a) ag) ->
+  n_nesting_ok E ag nst = true ->
+  nesting_ok (e_parent E) streams pending (table_pend E (nxf nst) (ids p)) = true.
+Proof.
+  intros HT Hag Hn. unfold nesting_ok. apply forallb_forall. intros a Ha.
+  apply forallb_forall. intros q Hq. apply negb_true_iff. unfold encloses.
+  destruct (p_stream q) eqn:Sq; [reflexivity|].
+  destruct (p_stream a) eqn:Sa; [reflexivity|]. cbn [negb andb].
+  destruct (memN (p_label q) (ancestors (S (length (e_parent E))) (e_parent E) (p_label a))) eqn:Hm;
+    [|reflexivity].
+  exfalso.
+  unfold table_pend in Hq. apply in_map_iff in Hq as [[k i] [Eq Hin]]. subst q.
+  rewrite pend_of_stream_flag in Sq. apply negb_false_iff in Sq.
+  assert (Hlab : p_label (pend_of E (nxf nst) (k, i)) = N.div2 k) by (unfold pend_of; rewrite Sq; reflexivity).
+  rewrite Hlab in Hm. apply memN_in in Hm.
+  unfold n_nesting_ok in Hn. rewrite forallb_forall in Hn.
+  specialize (Hn _ (Hag _ Ha Sa)). rewrite forallb_forall in Hn. specialize (Hn _ Hm).
+  apply negb_true_iff in Hn. rewrite (gkey_div2_even _ Sq) in Hn.
+  apply not_true_iff_false in Hn. apply Hn. apply memN_true_iff.
+  rewrite <- (t_keys _ _ HT). change k with (fst (k, i)). apply in_map. exact Hin.
+Qed.
+
+Lemma K_batch E nst nst' p M b :
+  K E nst p M -> nbatch E nst b = Some nst' ->
+  let '(p', pl) := handle_batch E p b in
+  exists M', mstep (e_parent E) M pl = Some M' /\ K E nst' p' M' /\ pl_has_next pl = negb (n_closed nst').
+Proof.
+  intros (Kp & Ku & KT) Hb. unfold nbatch in Hb.
+  destruct (n_closed nst) eqn:Hcl; [discriminate|].
+  destruct (nsteps nst b) as [nst1|] eqn:Hs; [|discriminate].
+  destruct (n_nesting_ok E (announced_groups b) nst1) eqn:Hn; [|discriminate].
+  inversion Hb; subst nst1; clear Hb.
+  assert (HJ0 : J E M nst p parts_init []).
+  { exists M, (m_pend M). cbn [parts_init pa_pending pa_incr pa_completed pa_has_next announce deliver complete].
+    split; [reflexivity|]. split; [reflexivity|]. split; [rewrite Kp; reflexivity|].
+    split; [exact Ku|]. split; [constructor|]. split; [exact KT|]. split; [rewrite Hcl; reflexivity|].
+    intros a []. }
+  pose proof (J_events E M b _ _ _ _ _ HJ0 Hs) as HJ.
+  unfold handle_batch. destruct (fold_left (handle_event E) b (p, parts_init)) as [p' c'].
+  cbn [app] in HJ. destruct HJ as (M1 & pd2 & Ha & Hd & Hc & Hu & Hl & HT & Hhn & Hag).
+  eexists. unfold mstep. cbn [pl_pending pl_incr pl_completed pl_has_next].
+  rewrite Ha, Hd, Hc.
+  rewrite (nesting_from_nodes E nst' p' (m_streams M1) (pa_pending c') (announced_groups b) HT Hag Hn).
+  split; [reflexivity|]. split; [|exact Hhn].
+  split; [reflexivity|]. split; [exact Hu|exact HT].
+Qed.
+
+Lemma nbatches_closed E bs nst nst' : n_closed nst = true -> nbatches E nst bs = Some nst' -> bs = [].
+Proof.
+  intros Hc H. destruct bs as [|b bs]; [reflexivity|]. cbn in H. unfold nbatch in H. rewrite Hc in H. discriminate.
+Qed.
+
+Lemma K_batches E : forall bs nst nst' p M,
+  K E nst p M -> n_closed nst = false -> nbatches E nst bs = Some nst' ->
+  exists M', vrun (e_parent E) M (handle_batches E p bs) = Some (M', n_closed nst').
+Proof.
+  induction bs as [|b bs IH]; intros nst nst' p M HK Hcl Hb; cbn [nbatches handle_batches vrun] in *.
+  - inversion Hb; subst. exists M. rewrite Hcl. reflexivity.
+  - destruct (nbatch E nst b) as [nst1|] eqn:B1; [|discriminate].
+    pose proof (K_batch _ _ _ _ _ _ HK B1) as HB.
+    destruct (handle_batch E p b) as [p1 pl]. destruct HB as (M1 & Hm & HK1 & Hhn).
+    cbn [vrun]. rewrite Hm. destruct (pl_has_next pl) eqn:Hn.
+    + symmetry in Hhn. apply negb_true_iff in Hhn. exact (IH _ _ _ _ HK1 Hhn Hb).
+    + symmetry in Hhn. apply negb_false_iff in Hhn.
+      pose proof (nbatches_closed _ _ _ _ Hhn Hb) as Hnil. subst bs. cbn in Hb. inversion Hb; subst nst'.
+      cbn [handle_batches].
+      destruct HK1 as (Kp & _ & KT). rewrite Kp.
+      assert (Hids : ids p1 = []).
+      { pose proof (t_keys _ _ KT) as Tk. rewrite (t_closed _ _ KT Hhn) in Tk.
+        destruct (ids p1); [reflexivity|discriminate]. }
+      rewrite Hids. cbn. rewrite Hhn. eauto.
+Qed.
+
+Lemma T_init : T ns_init pub_init.
+Proof.
+  constructor; cbn [ns_init pub_init ids next_id n_open n_seen n_next n_closed map].
+  - reflexivity.
+  - constructor.
+  - intros x [].
+  - constructor.
+  - intros k i [].
+  - intros k Hk. exfalso. apply Hk. reflexivity.
+  - discriminate.
+Qed.
+
+(* Every well-formed trace of work-queue event batches is published as a payload stream that the
+   protocol validator accepts; the stream is complete exactly when the trace ended with the
+   termination event. *)
+Theorem publish_valid E ig is_ bs nst :
+  nrun E ig is_ bs = Some nst ->
+  exists M, vrun (e_parent E) m_init (publish E ig is_ bs) = Some (M, n_closed nst).
+Proof.
+  unfold nrun. intro H.
+  destruct (n_announce (new_keys ig is_) ns_init) as [st0|] eqn:A; [|discriminate].
+  destruct (n_nesting_ok E ig st0) eqn:Hn; [|discriminate].
+  assert (HJ0 : J E m_init ns_init pub_init parts_init []).
+  { exists m_init, []. cbn. repeat (split; [reflexivity|]). split; [intros i []|].
+    split; [constructor|]. split; [exact T_init|]. split; [reflexivity|intros a []]. }
+  pose proof (J_announce E m_init (new_keys ig is_) _ _ _ _ _ HJ0 eq_refl A) as HJ.
+  unfold publish. rewrite to_pending_eq.
+  destruct (announce_keys E (new_keys ig is_) pub_init) as [pn p].
+  destruct HJ as (HJ & Hcl & _). rewrite groups_of_new_keys in HJ. cbn [app parts_init pa_pending pa_incr pa_completed pa_has_next] in HJ.
+  destruct HJ as (M1 & pd2 & Ha & Hd & Hc & Hu & Hl & HT & Hhn & Hag).
+  cbn [app parts_init pa_pending pa_incr pa_completed pa_has_next] in Ha, Hd, Hc, Hag.
+  cbn [deliver] in Hd. inversion Hd; subst pd2; clear Hd. cbn [complete] in Hc. inversion Hc as [Hp]; clear Hc.
+  cbn [vrun]. unfold mstep. cbn [pl_pending pl_incr pl_completed pl_has_next].
+  rewrite Ha. cbn [deliver complete]. rewrite Hp.
+  rewrite (nesting_from_nodes E st0 p (m_streams M1) pn ig HT Hag Hn).
+  apply (K_batches E bs st0 nst p); [|exact Hcl|exact H].
+  split; [reflexivity|]. split; [exact Hu|exact HT].
+Qed.
+
+Corollary publish_valid_prefix E ig is_ bs :
+  wq_wf E ig is_ bs = true -> valid_prefix (e_parent E) (publish E ig is_ bs) = true.
+Proof.
+  unfold wq_wf, valid_prefix. destruct (nrun E ig is_ bs) as [nst|] eqn:R; [|discriminate].
+  intros _. destruct (publish_valid _ _ _ _ _ R) as [M HM]. rewrite HM. reflexivity.
+Qed.
+
+Corollary publish_valid_complete E ig is_ bs :
+  wq_wf_closed E ig is_ bs = true -> valid (e_parent E) (publish E ig is_ bs) = true.
+Proof.
+  unfold wq_wf_closed, valid. destruct (nrun E ig is_ bs) as [nst|] eqn:R; [|discriminate].
+  intro Hc. destruct (publish_valid _ _ _ _ _ R) as [M HM]. rewrite HM. exact Hc.
+Qed.
